@@ -7,9 +7,10 @@ set -e
 FLAV=${1:-plain}
 REPO=${VERIF_REPO:-/repo}
 ROOT=$(cd "$(dirname "$0")/.." && pwd)
-BD=$ROOT/build/lib-$FLAV
-mkdir -p "$ROOT/build"
-exec 9>"$ROOT/build/.lock-$FLAV"
+# a scratch worktree (VERIF_REPO=/tmp/...) gets its own build directory
+if [ "$REPO" = /repo ]; then BD=$ROOT/build/lib-$FLAV; else BD=$ROOT/build/alt-$(echo "$REPO" | md5sum | cut -c1-8)/lib-$FLAV; fi
+mkdir -p "$(dirname "$BD")"
+exec 9>"$BD.lock"
 flock 9
 CF="-DDISPATCH_VERIF=1 -Wno-error -Wno-unused-variable -Wno-static-in-inline"
 if [ "$FLAV" = asan ]; then CF="$CF -fsanitize=address,undefined -fno-omit-frame-pointer -fno-sanitize=alignment,function"; fi
